@@ -27,7 +27,8 @@ Definition translate (k : kind) (size true_size address : Z) : res Z :=
   | KRev w =>
       if negb (true_size mod w =? 0) then Err BadReadSize
       else let ta := size - (address + true_size) in
-           if negb (ta mod w =? 0) then Err BadAlign else Ok ta
+           if ta <? 0 then Err BadReadSize     (* only for size <= 0: fix 4e95fab *)
+           else if negb (ta mod w =? 0) then Err BadAlign else Ok ta
   end.
 
 (** numpy: frombuffer / reshape [n/w, w] / flip axis 0 / flatten *)
